@@ -682,3 +682,86 @@ namespace vd
         return out;
     }
 }
+
+// ---- api: histories of C API calls (C18) ----
+#include "export/sqfvm.h"
+namespace vd
+{
+    struct cbrec { long long ud, cd; int sev; std::string msg; };
+    static std::vector<cbrec> g_cb;
+    static void api_cb(void* user_data, void* call_data, int32_t severity, const char* message, uint32_t length)
+    {
+        g_cb.push_back({ (long long)(intptr_t)user_data, (long long)(intptr_t)call_data, severity, std::string(message ? message : "", message ? length : 0) });
+    }
+    js::val mode_api(const js::val& req)
+    {
+        g_clock.reset();
+        g_clock.tick_us = req["tick_us"].i64(0);
+        g_cb.clear();
+        std::map<int, void*> inst;
+        auto out = js::val::array();
+        auto& steps = req["steps"];
+        char foreign[64] = { 'X', 'Q', 'F', 'E', 0 };
+        for (size_t i = 0; i < steps.size(); i++)
+        {
+            auto& st = steps[i];
+            std::string op = st["op"].str();
+            int h = (int)st["h"].i64(0);
+            auto r = js::val::object();
+            size_t cb0 = g_cb.size();
+            void* handle = nullptr;
+            std::string hk = st["handle"].str("live");
+            if (hk == "live") { auto it = inst.find(h); handle = it == inst.end() ? nullptr : it->second; }
+            else if (hk == "null") handle = nullptr;
+            else if (hk == "foreign") handle = foreign;
+            if (op == "create")
+            {
+                std::string kind = st["kind"].str("full");
+                float mr = (float)st["max_runtime"].num(0);
+                void* p = kind == "full" ? sqfvm_create_instance((void*)(intptr_t)st["ud"].i64(0), api_cb, mr)
+                    : kind == "basic" ? sqfvm_create_instance_basic((void*)(intptr_t)st["ud"].i64(0), api_cb, mr)
+                    : sqfvm_create_instance_empty((void*)(intptr_t)st["ud"].i64(0), api_cb, mr);
+                inst[h] = p;
+                r.set("ok", p != nullptr);
+            }
+            else if (op == "destroy")
+            {
+                if (handle) sqfvm_destroy_instance(handle);
+                inst.erase(h);
+            }
+            else if (op == "load_config")
+            {
+                std::string t = st["text"].str();
+                r.set("code", (int)sqfvm_load_config(handle, t.data(), (uint32_t)t.size()));
+            }
+            else if (op == "call")
+            {
+                std::string t = st["text"].str();
+                std::string ty = st["type"].str("s");
+                r.set("code", (int)sqfvm_call(handle, (void*)(intptr_t)st["cd"].i64(0), ty.empty() ? 's' : ty[0], t.data(), (uint32_t)t.size()));
+            }
+            else if (op == "status")
+            {
+                r.set("code", (int)sqfvm_status(handle));
+            }
+            else if (op == "clock")
+            {
+                g_clock.now_us += st["add_us"].i64(0);
+            }
+            else throw std::runtime_error("api: unknown op " + op);
+            auto cbs = js::val::array();
+            for (size_t k = cb0; k < g_cb.size(); k++)
+            {
+                auto c = js::val::object();
+                c.set("ud", g_cb[k].ud); c.set("cd", g_cb[k].cd); c.set("sev", g_cb[k].sev); c.set("msg", g_cb[k].msg.substr(0, 400));
+                cbs.push(c);
+            }
+            r.set("cb", cbs);
+            out.push(r);
+        }
+        for (auto& p : inst) if (p.second) sqfvm_destroy_instance(p.second);
+        auto res = js::val::object();
+        res.set("steps", out);
+        return res;
+    }
+}
